@@ -456,7 +456,7 @@ class Gen:
                     s += str(d)
             if r.chance(1, 10):
                 s += r.choice("tdu")
-            e = r.below(8)
+            e = r.below(5)
             return s + ("i" if e == 0 else "p" if e == 1 else "")
         c = r.below(10)
         if c == 0:
@@ -518,7 +518,7 @@ class Gen:
         """budget of a catch clause / cleanup form: 0..k-1, in the driver profile 0..k+1"""
         return self.rng.below(k + 2 if self.profile == "driver" else k)
 
-    def drive(self, n, target, cnt, vis, fibs, depth, budget, ccall, first=True, kind=None):
+    def drive(self, n, target, cnt, vis, fibs, depth, budget, ccall, first=True, kind=None, cfg=True):
         """`cnt` consecutive steps (slots n, n+1, …) that target the fiber in atom `target`: resume / cancel / next; every
         step but the first is, two times out of three, guarded by a status test the way a driver loop is written
         (`(if (= (fiber/status f) :pending) (resume f x))` resp. `(if (= (fiber/status f) :dead) nil (resume f x))`);
@@ -533,6 +533,12 @@ class Gen:
             if kind is None:
                 self.count(k)
             return (k, target, self.val(vs)) if k != "next" else (k, target)
+        if first and cfg and kind is None and r.chance(1, 4):
+            # configure the environment, then start the worker (what `(setdyn :out buf)` before running a child is for):
+            # the write comes AFTER the child was created, so whether the child sees it depends on `:i` / `:p` alone
+            l = self.lab()
+            self.count("setdyn")
+            return ('P', l, ('setdyn', r.below(3), self.val(vis)), self.drive(n + 1, target, cnt, vis + [n], fibs, depth, budget, ccall, True, None, False))
         if not first and (depth == 0 or r.chance(2, 3)):
             l, l2, l3 = self.lab(), self.lab(), self.lab()
             self.count("ite")
@@ -578,7 +584,7 @@ class Gen:
                         choices.append(("each", 3))
             else:
                 choices = [("yield", 16), ("signal", 6), ("debug", 1), ("error", 2), ("pure", 2), ("resume", 12), ("cancel", 6), ("next", 3),
-                           ("last", 1), ("status", 1), ("setdyn", 2), ("dyn", 2), ("ite", 2), ("propagate", 2), ("return", 1)]
+                           ("last", 1), ("status", 1), ("setdyn", 2), ("dyn", 5), ("ite", 2), ("propagate", 2), ("return", 1)]
                 if not deep:
                     choices += [("new", 10), ("defer", 4), ("edefer", 2), ("try", 5), ("protect", 3), ("with", 1), ("prompt", 2), ("gen", 2),
                                 ("coro", 3), ("dyns", 1), ("block", 1), ("ccall", 4), ("each", 4)]
